@@ -64,7 +64,9 @@ CLASSES = collections.OrderedDict([
     ('SystemExit', SystemExit), ('KeyboardInterrupt', KeyboardInterrupt),
     ('MemoryError', MemoryError), ('RecursionError', RecursionError),
 ])
-ARGS = [(), (1,), ('x', 2), ((1, ('a', (2.5, None))),), (1, 'y', (2, (3,)))]
+ARGS = [(), (1,), ('x', 2), ((1, ('a', (2.5, None))),), (1, 'y', (2, (3,))),
+        # a message that looks like the quoting a traceback text is shipped in
+        ('he said \"\"\"stop\"\"\" and \'\'\'go\'\'\'\n\"\"\"',)]
 DEPTHS_A = [1, 2, 3, LIMIT - 1, LIMIT, LIMIT + 1, LIMIT + 2, LIMIT + 10]
 PICKLERS = collections.OrderedDict([
     ('pickle', lambda o: pickle.dumps(o)),
